@@ -211,11 +211,29 @@ func Harness_C06_table() {
 	for i := range cols {
 		cols[i] = zzverif.String("col", 1)
 	}
-	rows := uint32(zzverif.Int("rows", 0, 765))
+	var rows uint32
+	// bigBlocks = B: a table of exactly B blocks; only the first and last sums are symbolic, the others are concrete and distinct
+	big := zzverif.Param("bigBlocks", 0)
+	if big > 0 {
+		// concrete row count (one row in the last block): a symbolic one costs a solver
+		// query per loop iteration of the decoder, 2 x B of them
+		rows = uint32((big-1)*255 + 1)
+	} else {
+		rows = uint32(zzverif.Int("rows", 0, 765))
+	}
 	nb := int((rows + 254) / 255)
-	nbC := zzverif.Concrete(nb)
+	nbC := big
+	if big == 0 {
+		nbC = zzverif.Concrete(nb)
+	}
 	t := &Table{Columns: cols, PK: []uint32{uint32(zzverif.Param("pk", 0))}, RowsCount: rows}
 	for i := 0; i < nbC; i++ {
+		if big > 0 && i > 0 && i < nbC-1 {
+			b := bytes.Repeat([]byte{byte(i), byte(i >> 8)}, 8)
+			t.Blocks = append(t.Blocks, b)
+			t.BlockIndices = append(t.BlockIndices, append([]byte{0xee}, b[1:]...))
+			continue
+		}
 		t.Blocks = append(t.Blocks, zzverif.Bytes("blk", 16))
 		t.BlockIndices = append(t.BlockIndices, zzverif.Bytes("idx", 16))
 	}
@@ -234,9 +252,16 @@ func Harness_C06_table() {
 		}
 	}
 	zzverif.Assert("table-block-count", len(got.Blocks) == nbC && len(got.BlockIndices) == nbC && uint32(nbC) == BlocksCount(rows))
+	middleOK := true
 	for i := 0; i < nbC && i < len(got.Blocks); i++ {
+		if big > 0 && i > 0 && i < nbC-1 {
+			// concrete sums: one concrete comparison, no solver query per block
+			middleOK = middleOK && bytes.Equal(got.Blocks[i], t.Blocks[i]) && bytes.Equal(got.BlockIndices[i], t.BlockIndices[i])
+			continue
+		}
 		zzverif.Assert("table-sums-roundtrip", bytes.Equal(got.Blocks[i], t.Blocks[i]) && bytes.Equal(got.BlockIndices[i], t.BlockIndices[i]))
 	}
+	zzverif.Assert("table-sums-roundtrip", middleOK)
 	buf2 := bytes.NewBuffer(nil)
 	got.WriteTo(buf2)
 	zzverif.Assert("table-reencode-identical", bytes.Equal(buf2.Bytes(), buf.Bytes()))
